@@ -217,6 +217,7 @@ structure MW where
   hl : Bool             -- have_lock
   outc : Outc           -- outcome
   saw : Bool            -- ghost: the note was observed notified (or notified) by this call
+  wk : Bool := false    -- mu_try_acquire_after_timeout_or_cancel: zero_to_acquire == MU_ANY_LOCK (*w was seen woken; repair of F9)
 deriving DecidableEq, Repr
 
 /-- Live locals of nsync_mu_lock_slow_; `mw` = the call was made by nsync_mu_wait_with_deadline
@@ -389,6 +390,7 @@ inductive PC
   | mwRet (c : MW) (cit : Bool)
   -- mu_try_acquire_after_timeout_or_cancel
   | mtLd (c : MW) | mtCasAcq (c : MW) (old : Word) | mtCasWW (c : MW) (old : Word)
+  | mtLdWk (c : MW) (old : Word)          -- LOAD_ACQ waiting at the top of the loop body (repair of F9)
   | mtLdW (c : MW) (old : Word) | mtLdRc (c : MW) (old : Word)
   | mtRmLd (c : MW) (old : Word) | mtRmCas (c : MW) (old : Word) (rc : Nat)
   | mtStW (c : MW) (old : Word)
@@ -765,22 +767,32 @@ def stepLd (s : State) (t : Tid) (o : Ord) (loc : Loc) (obs : Nat) : Except Stri
       if !(c.note && c.saw) then .error "sem_wait_with_cancel returned without a P although the note was not seen notified"
       else
         let c' := { c with so := .cancelled }
-        ldWaiting s .rlx k o loc obs (if (s.wr k).waiting then setPc s t (.mtLd c') else setPc s t (.mwLd255 c'))
+        ldWaiting s .rlx k o loc obs (if (s.wr k).waiting then setPc s t (.mtLd { c' with wk := false }) else setPc s t (.mwLd255 c'))
   | .mwLd244 c =>
     match c.w with
     | none => .error "wait loop without a waiter record"
     | some k =>
-      ldWaiting s .rlx k o loc obs (if (s.wr k).waiting then setPc s t (.mtLd c) else setPc s t (.mwLd255 c))
+      ldWaiting s .rlx k o loc obs (if (s.wr k).waiting then setPc s t (.mtLd { c with wk := false }) else setPc s t (.mwLd255 c))
   | .mwLd255 c =>
     match c.w with
     | none => .error "wait loop without a waiter record"
     | some k => ldWaiting s .rlx k o loc obs (setPc s t (.mwWaitLd c))
   -- mu_try_acquire_after_timeout_or_cancel
   | .mtLd c =>
+    -- `(old_word & (zero_to_acquire|MU_SPINLOCK)) != 0`; zero_to_acquire = MU_WZERO_TO_ACQUIRE, or MU_ANY_LOCK once woken
     ldWord s o loc obs
-      (if !(old.wlock || old.readers != 0 || old.lw || old.spin) then setPc s t (.mtCasAcq c old)
-       else if !(old.ww || old.spin) then setPc s t (.mtCasWW c old)
-       else setPc s t (.mtLd c))
+      (if !(old.wlock || old.readers != 0 || (!c.wk && old.lw) || old.spin) then setPc s t (.mtCasAcq c old)
+       else setPc s t (.mtLdWk c old))
+  | .mtLdWk c old' =>
+    -- repair of F9, top of the loop body: `if (ATM_LOAD_ACQ (&w->nw.waiting) == 0) zero_to_acquire = MU_ANY_LOCK;` (the thread
+    -- has been woken: like a woken thread in nsync_mu_lock_slow_ it no longer waits for MU_LONG_WAIT); then the
+    -- MU_WRITER_WAITING attempt, or straight back to the re-load of the word
+    match c.w with
+    | none => .error "no waiter record"
+    | some k =>
+      let c' := { c with wk := c.wk || !(s.wr k).waiting }
+      ldWaiting s .acq k o loc obs
+        (if !(old'.ww || old'.spin) then setPc s t (.mtCasWW c' old') else setPc s t (.mtLd c'))
   | .mtLdW c old' =>
     match c.w with
     | none => .error "no waiter record"
@@ -973,7 +985,7 @@ def stepCas (s : State) (t : Tid) (o : Ord) (loc : Loc) (exp new obs : Nat) (ok 
     let nw := mtAcqWord old
     casWord s o .acq loc exp new obs ok old nw
       { setPc s t (.mtLdW c old) with word := nw, sp := some t, wOwner := some t }
-      (if !old.ww then setPc s t (.mtCasWW c old) else setPc s t (.mtLd c))
+      (setPc s t (.mtLdWk c old))
   | .mtCasWW c old =>
     let nw := { old with ww := true }
     casWord s o .ar loc exp new obs ok old nw
